@@ -79,6 +79,12 @@ Reinit(k0) ==
     /\ h = 1 /\ act' = A("init", 0, 0, k0, 0) /\ res' = [k |-> "ok"] /\ h' = h
     /\ ke' = [i \in 1..N |-> k0] /\ UNCHANGED <<pe, buffer>>
 
+\* a second reaction system initialised and used inside a child scope (its own molecule records and buffer shadow the
+\* caller's): when the scope is left, the caller's records and buffer are what they were
+ScopedInit(k0) ==
+    /\ h = 1 /\ act' = A("scoped_init", 0, 0, k0, 0) /\ res' = [k |-> "ok"] /\ h' = h
+    /\ UNCHANGED <<pe, ke, buffer>>
+
 \* the template puts reactants and products on the stack before each update
 Prepare == /\ h = 1 /\ h' = 3 /\ act' = A("prepare", 0, 0, 0, 0) /\ res' = [k |-> "ok"]
            /\ UNCHANGED <<pe, ke, buffer>>
@@ -92,6 +98,7 @@ Bounded == /\ N <= MaxMol /\ buffer <= 3 * MaxE
            /\ \A i \in 1..N : ke[i] <= 3 * MaxE
 \* one reaction update, named by its action record (shared by the model checker and the trace specification)
 Do(a) == CASE a.op = "init" -> Reinit(a.p1)
+           [] a.op = "scoped_init" -> ScopedInit(a.p1)
            [] a.op = "on_wall" -> OnWall(a.i, a.p1)
            [] a.op = "decompose" -> Decompose(a.i, a.p1, a.p2)
            [] a.op = "intermolecular" -> Intermolecular(a.i, a.j, a.p1, a.p2)
@@ -101,13 +108,13 @@ Acts == {A("on_wall", i, 0, p, 0) : i \in 1..N, p \in E}
         \cup {A("intermolecular", x[1], x[2], p1, p2) : x \in {y \in (1..N) \X (1..N) : y[1] # y[2]}, p1 \in E, p2 \in E}
         \cup {A("synthesis", x[1], x[2], p, 0) : x \in {y \in (1..N) \X (1..N) : y[1] # y[2]}, p \in E}
 CNext == \/ Prepare
-         \/ \E k0 \in E : Reinit(k0)
+         \/ \E k0 \in E : Reinit(k0) \/ ScopedInit(k0)
          \/ /\ h = 3 /\ \E a \in Acts : Do(a)
 CSpec == CInit /\ [][CNext]_cvars
 
 ---------------------------------------------------------------------------
 \* every update conserves energy
-Conserved == [][act'.op # "init" => Total(pe', ke', buffer') = Total(pe, ke, buffer)]_cvars
+Conserved == [][act'.op \notin {"init"} => Total(pe', ke', buffer') = Total(pe, ke, buffer)]_cvars
 \* no molecule or the buffer ever has negative energy
 NonNegative == buffer >= 0 /\ \A i \in 1..Len(ke) : ke[i] >= 0
 \* exactly one molecule record per individual
